@@ -611,7 +611,7 @@ class Index:
         e = stmt.get("e") if k == "ExprStmt" else None
         if k == "LetStmt":
             if stmt.get("els") is not None and stmt.get("init") is not None:
-                out.append({"cond": "let %s = %s" % (H.show_pat(stmt["pat"]), self.canon(stmt["init"])),
+                out.append({"cond": self.let_cond(stmt["pat"], stmt["init"], True), "raw": self.let_cond(stmt["pat"], stmt["init"], False),
                             "kind": "let-else", "node": stmt, "errs": self.error_of(stmt["els"])})
             e = stmt.get("init")
         if e is None:
@@ -627,16 +627,78 @@ class Index:
                 for cc in self.split_and(c):
                     out.append({"cond": self.cond(cc), "kind": "guard-else", "node": e0, "errs": self.error_of(el),
                                 "raw": self.neg(cc), "expr": cc, "pos": True})
+        if e0.get("k") == "Match" and e0.get("src", "match") == "match":
+            out.extend(self._match_exits(e0, lambda b: self.diverges(b)))
         # `expr?` statements (and lets initialised by them): the call succeeded
         for x, _ in H.walk(e):
             if x.get("k") == "Closure":
                 continue
             if x.get("k") == "Try":
+                inner = peel(x["e"])
+                if inner.get("k") == "MethodCall" and inner["name"] in ("ok_or", "ok_or_else") and len(inner["args"]) == 1:
+                    # `x.ok_or(E)?`  ==  `let Some(v) = x else { return Err(E) }`
+                    r = self.canon(inner["recv"])
+                    out.append({"cond": "some(%s)" % r, "raw": "none(%s)" % r, "kind": "ok_or", "node": x,
+                                "errs": self.error_of(inner["args"][0])})
+                    continue
                 out.append({"cond": "ok " + self.canon(x["e"]), "kind": "try", "node": x, "errs": []})
                 out.extend(self._imported(x))
         # assert!(cond) style
         if e0.get("mac", "").split(">")[0] in ("assert", "assert_eq", "assert_ne", "debug_assert", "debug_assert_eq"):
             pass
+        return out
+
+    def _match_exits(self, m, leaves):
+        """arms of `m` that leave (per predicate `leaves`): one guard each; what holds afterwards is the complement
+        when the match has exactly one staying arm of a classifiable Option/Result pattern"""
+        out = []
+        arms = m["arms"]
+        exits = [a for a in arms if leaves(a["body"])]
+        stays = [a for a in arms if not leaves(a["body"])]
+        if not exits or not stays:
+            return out
+        for a in exits:
+            raw = self.arm_cond(m, a)
+            if a.get("guard"):
+                raw += " && " + self.cond(a["guard"])
+            after = "!(%s)" % raw
+            if len(stays) == 1 and len(exits) == 1 and not a.get("guard") and self.pat_class(stays[0]["pat"]) and self.pat_class(a["pat"]):
+                after = self.arm_cond(m, stays[0])
+            out.append({"cond": after, "raw": raw, "kind": "arm-exit", "node": m, "errs": self.error_of(a["body"]), "arm": a})
+        return out
+
+    def err_valued(self, n):
+        """the value of n is an `Err(..)` construction (through blocks)"""
+        t = peel(n) if n is not None else None
+        while t is not None and t.get("k") == "Block":
+            if t.get("expr") is None:
+                return False
+            t = peel(t["expr"])
+        return t is not None and t.get("k") == "Call" and H.strip_generics(H.callee(t) or "").endswith("Result::Err")
+
+    def result_nodes(self):
+        """If / Match expressions whose value is the function's result (body tail or `return` operand)"""
+        out = []
+
+        def rec(n):
+            n = peel(n) if n is not None else None
+            if n is None:
+                return
+            k = n.get("k")
+            if k == "Block":
+                rec(n.get("expr"))
+            elif k == "If":
+                out.append(n)
+                rec(n["then"])
+                rec(n.get("else"))
+            elif k == "Match":
+                out.append(n)
+                for a in n["arms"]:
+                    rec(a["body"])
+        rec(self.root)
+        for x, _ in H.walk(self.root):
+            if x.get("k") == "Ret" and x.get("e") is not None:
+                rec(x["e"])
         return out
 
     def _imported(self, try_node):
@@ -677,16 +739,57 @@ class Index:
             return self.split_and(c["l"]) + self.split_and(c["r"])
         return [c]
 
+    COMPLEMENT = {"some": "none", "none": "some", "ok": "err", "err": "ok"}
+
+    @staticmethod
+    def pat_class(pat):
+        """'some' / 'none' / 'ok' / 'err' when the pattern is exactly that Option/Result variant with only bindings
+        or wildcards inside (so that matching it says nothing more than which variant it is), else None."""
+        p = pat
+        while p.get("k") in ("RefPat", "DerefPat"):
+            p = p["sub"]
+        k = p.get("k")
+        path = H.strip_generics((p.get("path") or {}).get("path") or "") if k in ("TupleStruct", "Struct", "PathPat", "Path") else ""
+        if k == "TupleStruct":
+            subs = p["pats"]
+
+            def plain(x):
+                while x.get("k") in ("RefPat", "DerefPat"):
+                    x = x["sub"]
+                return x.get("k") in ("Wild",) or (x.get("k") == "Bind" and not x.get("sub"))
+            if not all(plain(x) for x in subs):
+                return None
+            for suffix, cls in (("Option::Some", "some"), ("Result::Ok", "ok"), ("Result::Err", "err")):
+                if path.endswith(suffix):
+                    return cls
+            return None
+        if path.endswith("Option::None") or H.show_pat(p) == "Option::None":
+            return "none"
+        return None
+
+    def let_cond(self, pat, init, positive=True):
+        cls = self.pat_class(pat)
+        x = self.canon(init)
+        if cls is not None:
+            return "%s(%s)" % (cls if positive else self.COMPLEMENT[cls], x)
+        return "%slet %s = %s" % ("" if positive else "!", H.show_pat(pat), x)
+
+    def arm_cond(self, m, a):
+        cls = self.pat_class(a["pat"])
+        if cls is not None:
+            return "%s(%s)" % (cls, self.canon(m["scrut"]))
+        return "match %s => %s" % (self.canon(m["scrut"]), H.show_pat(a["pat"]))
+
     def cond(self, c):
         c = peel(c)
         if c.get("k") == "Let":
-            return "let %s = %s" % (H.show_pat(c["pat"]), self.canon(c["init"]))
+            return self.let_cond(c["pat"], c["init"], True)
         return self.canon(c)
 
     def neg(self, c):
         c = peel(c)
         if c.get("k") == "Let":
-            return "!let %s = %s" % (H.show_pat(c["pat"]), self.canon(c["init"]))
+            return self.let_cond(c["pat"], c["init"], False)
         fake = {"k": "Unary", "op": "!", "e": c, "ty": "bool"}
         s = self.canon(fake)
         if s.startswith("!!"):
@@ -720,8 +823,7 @@ class Index:
             elif k == "Match":
                 for a in anc["arms"]:
                     if a["body"] is child or self.contains(a["body"], child):
-                        out.append({"cond": "match %s => %s" % (self.canon(anc["scrut"]), H.show_pat(a["pat"])),
-                                    "kind": "arm", "node": anc, "errs": []})
+                        out.append({"cond": self.arm_cond(anc, a), "kind": "arm", "node": anc, "errs": []})
                         if a.get("guard"):
                             out.append({"cond": self.cond(a["guard"]), "kind": "arm-guard", "node": anc, "errs": []})
             elif k == "While":
@@ -746,19 +848,45 @@ class Index:
                 return True
         return False
 
+    GUARD_KINDS = ("guard", "guard-else", "let-else", "arm-exit", "ok_or")
+
     def all_guards(self):
-        """Every diverging guard in the body: (cond that triggers the exit, error variants, node)."""
+        """Every validation exit of the body as (condition that triggers the exit, error variants, node), whatever
+        its spelling: `if c { return Err }`, `if c { Err } else { .. }` as the result, a match arm / let-else /
+        `ok_or(E)?` that leaves with an error."""
         out = []
+        seen = set()
+
+        def add(g):
+            key = (id(g["node"]), g.get("raw", g["cond"]), id(g.get("arm")))
+            if key not in seen:
+                seen.add(key)
+                out.append(g)
         for n, _ in H.walk(self.root):
             if n.get("k") == "Block":
                 for s in n["stmts"]:
                     for g in self.stmt_guards(s):
-                        if g["kind"] in ("guard", "guard-else", "let-else"):
-                            out.append(g)
+                        if g["kind"] in self.GUARD_KINDS:
+                            add(g)
                 if n.get("expr") is not None:
                     for g in self.stmt_guards({"k": "ExprStmt", "e": n["expr"]}):
-                        if g["kind"] in ("guard", "guard-else", "let-else"):
-                            out.append(g)
+                        if g["kind"] in self.GUARD_KINDS:
+                            add(g)
+        for n in self.result_nodes():
+            if n.get("k") == "If":
+                c, t, el = n["cond"], n["then"], n.get("else")
+                if el is None:
+                    continue
+                te, ee = self.err_valued(t), self.err_valued(el)
+                if te and not ee and not self.diverges(el):
+                    for cc in self.split_or(c):
+                        add({"cond": self.neg(cc), "kind": "guard", "node": n, "errs": self.error_of(t), "raw": self.cond(cc), "expr": cc, "pos": False})
+                elif ee and not te and not self.diverges(t):
+                    for cc in self.split_and(c):
+                        add({"cond": self.cond(cc), "kind": "guard-else", "node": n, "errs": self.error_of(el), "raw": self.neg(cc), "expr": cc, "pos": True})
+            elif n.get("k") == "Match" and n.get("src", "match") == "match":
+                for g in self._match_exits(n, lambda b: self.err_valued(b)):
+                    add(g)
         return out
 
 
